@@ -381,6 +381,15 @@ def gen_label_set(rng, single=False):
             else:
                 force = None
             insts.append({"pts": gen_instance(rng, n_nodes, W, H, 0.25, force), "pred": False})
+        if n_user >= 2 and rng.random() < 0.45:
+            # round 5: several animals with COMPLEMENTARY NaN patterns (each node labelled in some animals and
+            # missing in the others; sometimes one node missing in all): partial occlusion
+            dead = rng.randrange(n_nodes) if rng.random() < 0.3 else None
+            off = rng.randrange(len(insts))
+            for a, inst in enumerate(insts):
+                inst["pts"] = [[dy(rng, 1, W - 2), dy(rng, 1, H - 2)] if (k + a + off) % len(insts) == 0 and k != dead
+                               else (None if (k == dead or rng.random() < 0.7) else [dy(rng, 1, W - 2), dy(rng, 1, H - 2)])
+                               for k in range(n_nodes)]
         if pred_only or (not single and rng.random() < 0.4):      # predicted instances next to user ones
             for _ in range(rng.randint(1, 2)):
                 insts.insert(rng.randint(0, len(insts)),
